@@ -358,11 +358,13 @@ impl AssemblyCode {
                     {
                         remove_second = true;
                     }
-                    // Remove STA followed by LDA
+                    // Remove STA followed by LDA (only if the flags already reflect A, since
+                    // the removed LDA would have set them)
                     if i1.mnemonic == AsmMnemonic::STA
                         && i2.mnemonic == AsmMnemonic::LDA
                         && i1.dasm_operand == i2.dasm_operand
                         && !i2.protected
+                        && flags == FlagsState::A
                     {
                         remove_second = true;
                     }
